@@ -157,15 +157,18 @@ def check(F, rep, tier):
     fm = [x for x in F.find("GitUtils::find_max_version_tag") if x.kind == "assoc"]
     if rep.anchor("R10.5", "GitUtils::find_max_version_tag", fm):
         fm = fm[0]; rep.fn_seen(fm)
-        mb = [t for bi, t in fm.calls() if (mir.callee(t) or "").endswith("Iterator::max_by")]
-        if not mb: rep.bad("R10.5", "no-max-by", "find_max_version_tag does not pick the tag with Iterator::max_by", fm.where())
+        import tables as _tb
+        shape, det = _tb.max_choice_shape(F, fm)
+        if shape == "fixed-compare": rep.bad("R10.5", "not-running-max", "find_max_version_tag compares each tag with a fixed element instead of the greatest one so far (%s): with three or more tags on a commit the result is not the greatest tag" % det, fm.where())
+        elif shape == "unknown": rep.undecided("R10.5", "tag-choice-shape", "how find_max_version_tag picks the greatest tag is not recognised (%s)" % det, fm.where())
         else:
             reach2 = cg.closure([fm.path], generic=False)
-            if f.path in reach2: rep.ok("R10.5", "max_by comparator reaches <SemVer as Ord>::cmp", nontrivial_key="maxby")
+            if f.path in reach2: rep.ok("R10.5", "the greatest tag is chosen (%s) with a comparator that reaches <SemVer as Ord>::cmp" % shape, nontrivial_key="maxby")
             else: rep.bad("R10.5", "max-by-other-order", "the comparator used to choose the greatest tag does not reach <SemVer as Ord>::cmp", fm.where())
     # ---- R10.6 what the comparator sees: numeric identifiers are classified on their full u64 range ---------------
     import parsers
     parsers.numeric_classification(F, rep, "R10.6", "crate::version::semver::parser::", ("PreReleaseIdentifier",), floor=1)
+    core.borrow(F, rep, "c08", "C08", "R10.6", ("R08.4:const-fallback", "R08.4:discarded-error"), "a number too large for u64 is rejected by the parser, not replaced by another number (distinct versions would compare equal)")
     rep.extra["abstract_assignments_evaluated"] = evals
     return core.finish(rep, explanation=EXPL, assumptions=ASSUME, trusted=TRUST)
 
